@@ -79,7 +79,7 @@ theorem Inv_subscribe {s s' : St} (h : Inv s) {cap f t cbF cbT} (hs : step? s (.
   constructor
   · rw [e1]; exact h.A.subscribe _ rfl
   · rw [e1]; exact h.B.mono_st (fun t ht => List.mem_append_left _ ht)
-  · have : locks { s with count := s.count + 1, subs := s.subs ++ [{ id := s.count + 1, cap := cap, filter := f, timeout := t, cbFiltered := cbF, cbTimeout := cbT }] }
+  · have : locks { s with count := s.count + 1, subs := s.subs ++ [{ id := s.count + 1, cap := cap, filter := f, timeout := t, cbFiltered := cbF, cbTimeout := cbT, subAt := s.published.length }] }
         = locks s ++ [⟨s.count + 1, false, false, false⟩] := by simp [locks, Sub.lock]
     rw [this]
     apply h.C.subscribe
@@ -89,7 +89,7 @@ theorem Inv_subscribe {s s' : St} (h : Inv s) {cap f t cbF cbT} (hs : step? s (.
     have := h.id_le hx
     simp only [Sub.lock]
     omega
-  · have : bufs { s with count := s.count + 1, subs := s.subs ++ [{ id := s.count + 1, cap := cap, filter := f, timeout := t, cbFiltered := cbF, cbTimeout := cbT }] }
+  · have : bufs { s with count := s.count + 1, subs := s.subs ++ [{ id := s.count + 1, cap := cap, filter := f, timeout := t, cbFiltered := cbF, cbTimeout := cbT, subAt := s.published.length }] }
         = bufs s ++ [⟨s.count + 1, cap, []⟩] := by simp [bufs, Sub.bufv]
     rw [this]
     exact h.D.subscribe _ _
@@ -293,11 +293,11 @@ theorem Inv_timeout {s s' : St} (h : Inv s) {uid sub} (hs : step? s (.timeout ui
 
 theorem Inv_beginClose {s : St} (h : Inv s) (k : Nat) : Inv (beginClose s k) := by
   unfold beginClose
-  have eS : statics (updSub s k fun x => if x.onceStarted then x else { x with onceStarted := true, doneClosed := true }) = statics s :=
+  have eS : statics (updSub s k fun x => if x.onceStarted then x else { x with onceStarted := true, doneClosed := true, closedAt := some s.published.length }) = statics s :=
     view_updSub_same Sub.static s k _ (fun x => by split <;> rfl)
-  have eB : bufs (updSub s k fun x => if x.onceStarted then x else { x with onceStarted := true, doneClosed := true }) = bufs s :=
+  have eB : bufs (updSub s k fun x => if x.onceStarted then x else { x with onceStarted := true, doneClosed := true, closedAt := some s.published.length }) = bufs s :=
     view_updSub_same Sub.bufv s k _ (fun x => by split <;> rfl)
-  have eL : locks (updSub s k fun x => if x.onceStarted then x else { x with onceStarted := true, doneClosed := true })
+  have eL : locks (updSub s k fun x => if x.onceStarted then x else { x with onceStarted := true, doneClosed := true, closedAt := some s.published.length })
       = (locks s).map (fun l => if l.id == k then closeL l else l) :=
     view_updSub Sub.lock Lock.id (fun _ => rfl) closeL s k _ (fun x => by unfold closeL; by_cases ho : x.onceStarted = true <;> simp [Sub.lock, ho])
   constructor
